@@ -379,3 +379,58 @@ def indexing_kinds(level="1.5", rpc=2, n=5, m=4):
 
 def _short(key):
     return ", ".join(f"{k}={(v.values.tolist() if hasattr(v, 'values') else v)!r}" for k, v in key.items())[:100]
+
+
+def assembly(level="1.5", pols=("HH", "HV"), scans=(None,), with_mp=True, use_cache_cycle=False, pid=None):
+    """tree assembly of a synthesised product: children, one group per image in summary order with its own pixels, record groups, root attrs, coordinates"""
+    import ceos_alos2
+    from ceos_alos2.sar_leader.io import parse_data as parse_leader
+    from ceos_alos2.volume_directory.io import open_volume_directory
+
+    def run(root, datas):
+        bad = []
+        opts = {"use_cache": False, "records_per_chunk": 2}
+        if use_cache_cycle:
+            ceos_alos2.open_alos2(root, backend_options={"use_cache": True, "create_cache": True, "records_per_chunk": 3})
+            opts = {"use_cache": True, "records_per_chunk": 2}
+        tree = ceos_alos2.open_alos2(root, backend_options=opts)
+        if sorted(tree.children) != ["imagery", "metadata", "summary"]:
+            bad.append(f"children {list(tree.children)}")
+        want_names = []
+        for name in datas:
+            parts = name.split("-")
+            pol = parts[1]
+            scan = parts[-1] if len(parts) == 6 else None
+            want_names.append(pol + (f"_scan{scan[1]}" if scan else ""))
+        got_names = list(tree["imagery"].children)
+        if got_names != want_names:
+            bad.append(f"imagery groups {got_names}, expected {want_names}")
+        for gname, (fname, d) in zip(want_names, datas.items()):
+            if gname not in tree["imagery"].children:
+                continue
+            node = tree[f"imagery/{gname}"]
+            if not np.array_equal(node["data"].values, d):
+                bad.append(f"imagery/{gname} does not hold the pixels of {fname}")
+            ds = node.to_dataset()
+            if "coordinates" in ds.attrs:
+                bad.append(f"imagery/{gname}: bookkeeping attribute 'coordinates' left")
+            if not {"rows", "sensor_acquisition_date"} <= set(ds.coords):
+                bad.append(f"imagery/{gname}: per-line variables are not coordinates: {sorted(ds.coords)[:4]}")
+        led = parse_leader(open(os.path.join(root, [f for f in os.listdir(root) if f.startswith("LED-")][0]), "rb").read())
+        want_md = [k if k != "facility_related_data_5" else "transformations" for k, v in led.items()
+                   if v and k != "file_descriptor" and not (k.startswith("facility_related_data_") and k[-1] in "1234")]
+        if list(tree["metadata"].children) != want_md:
+            bad.append(f"metadata groups {list(tree['metadata'].children)}, expected {want_md}")
+        for sub in ("attitude", "rates"):
+            ds = tree[f"metadata/attitude/{sub}"].to_dataset()
+            if "time" not in ds.coords or "coordinates" in ds.attrs:
+                bad.append(f"metadata/attitude/{sub}: time is not a coordinate")
+        import fsspec
+
+        vol = open_volume_directory(fsspec.get_mapper(root), [f for f in os.listdir(root) if f.startswith("VOL-")][0])
+        want_attrs = dict(vol.attrs, reference_document="https://www.eorc.jaxa.jp/ALOS-2/en/doc/fdata/PALSAR-2_xx_Format_CEOS_E_f.pdf")
+        if dict(tree.attrs) != want_attrs:
+            bad.append(f"root attributes differ: {sorted(set(tree.attrs) ^ set(want_attrs))}")
+        return {"reproduced": bool(bad), "detail": bad[:6]}
+
+    return with_product(run, level=level, n=3, p=2, pols=pols, scans=scans, leader_kw={"with_mp": with_mp}, pid=pid)
